@@ -385,11 +385,16 @@ def call_lua_sandbox(
     expander: Callable,
     parent: Optional["ParentData"],
     timeout: Union[None, float, int],
+    template_fn: Optional[Callable] = None,
+    post_template_fn: Optional[Callable] = None,
 ) -> str:
     """Calls a function in a Lua module in the Lua sandbox.
     ``invoke_args`` is the arguments to the call; ``expander`` should
     be a function to expand an argument.  ``parent`` should be None or
-    (parent_title, parent_args) for the parent page."""
+    (parent_title, parent_args) for the parent page.  ``template_fn`` and
+    ``post_template_fn`` are the hooks of the expand() call being served;
+    they also apply to templates expanded through the frame (the #invoke
+    arguments, frame:preprocess(), frame:expandTemplate())."""
     assert isinstance(invoke_args, (list, tuple))
     assert callable(expander)
     assert parent is None or isinstance(parent, tuple)
@@ -603,7 +608,13 @@ def call_lua_sandbox(
             # expanding some of them.  We stay quiet about undefined
             # templates here, because Wiktionary Module:ugly hacks
             # generates them all the time.
-            ret = ctx.expand(encoded, parent, quiet=True)
+            ret = ctx.expand(
+                encoded,
+                parent,
+                quiet=True,
+                template_fn=template_fn,
+                post_template_fn=post_template_fn,
+            )
             return ret
 
         def preprocess(frame: "_LuaTable", *args: Any) -> str:
